@@ -1,4 +1,5 @@
 mod alloc_count;
+mod check;
 mod core;
 mod flavour;
 mod l1;
@@ -61,8 +62,20 @@ fn main() {
                 println!("run {} ops {} -> {}: {:?}\n  cfg {:?}\n  {}", f.run_index, f.ops.len(), ops.len(), l1::render_ops(def, &ops), cfg, first.msg);
             }
         }
+        "check" => {
+            let prop = args.get(2).cloned().unwrap_or_default();
+            let tier = arg_val(&args, "--tier").or_else(|| std::env::var("VERIF_TIER").ok()).unwrap_or("quick".into());
+            let seed: u64 = arg_val(&args, "--seed").or_else(|| std::env::var("VERIF_SEED").ok()).and_then(|s| s.parse().ok()).unwrap_or(1);
+            let threads: usize = arg_val(&args, "--threads").and_then(|s| s.parse().ok()).unwrap_or_else(|| std::thread::available_parallelism().map(|n| n.get()).unwrap_or(4).min(16));
+            let root = arg_val(&args, "--root").unwrap_or("/verif".into());
+            std::process::exit(check::cmd_check(std::path::Path::new(&root), &prop, &tier, seed, threads));
+        }
+        "replay" => {
+            let path = args.get(2).cloned().unwrap_or_default();
+            std::process::exit(check::cmd_replay(&path));
+        }
         _ => {
-            eprintln!("usage: simctl l1 --world W --runs N");
+            eprintln!("usage: simctl check <Cxx> --tier quick|thorough | replay <file> | l1 --world W --runs N");
             std::process::exit(2);
         }
     }
